@@ -4645,17 +4645,16 @@ bool SoPlexBase<R>::getBasisInverseRowReal(int r, R* coef, int* inds, int* ninds
             /* for information on the unscaling procedure see spxscaler.h */
 
             int scaleExp;
-            DSVectorBase<R> rhs(_solver.unitVector(r));
+            int rhsScaleExp;
 
-            // apply scaling \tilde{C} to rhs
+            // scaling \tilde{C} of the rhs: a common factor of the solution, applied afterwards (a rhs entry of 2^-60 would be
+            // dropped as zero by the sparse solve)
             if(_solver.basis().baseId(r).isSPxColId())
-               scaleExp = _scaler->getColScaleExp(_solver.number(_solver.basis().baseId(r)));
+               rhsScaleExp = _scaler->getColScaleExp(_solver.number(_solver.basis().baseId(r)));
             else
-               scaleExp = - _scaler->getRowScaleExp(_solver.number(_solver.basis().baseId(r)));
+               rhsScaleExp = - _scaler->getRowScaleExp(_solver.number(_solver.basis().baseId(r)));
 
-            rhs *= spxLdexp(1.0, scaleExp);
-
-            _solver.basis().coSolve(x, rhs);
+            _solver.basis().coSolve(x, _solver.unitVector(r));
             x.setup();
             int size = x.size();
 
@@ -4663,7 +4662,7 @@ bool SoPlexBase<R>::getBasisInverseRowReal(int r, R* coef, int* inds, int* ninds
             for(int i = 0; i < size; i++)
             {
                scaleExp = _scaler->getRowScaleExp(x.index(i));
-               x.scaleValue(x.index(i), scaleExp);
+               x.scaleValue(x.index(i), scaleExp + rhsScaleExp);
             }
          }
          else
@@ -4838,11 +4837,12 @@ bool SoPlexBase<R>::getBasisInverseColReal(int c, R* coef, int* inds, int* ninds
          {
             /* for information on the unscaling procedure see spxscaler.h */
 
-            int scaleExp = _scaler->getRowScaleExp(c);
-            DSVectorBase<R> rhs(_solver.unitVector(c));
-            rhs *= spxLdexp(1.0, scaleExp);
+            // the row scaling of the rhs is a common factor of the solution, applied afterwards (a rhs entry of 2^-60 would be
+            // dropped as zero by the sparse solve)
+            int rhsScaleExp = _scaler->getRowScaleExp(c);
+            int scaleExp;
 
-            _solver.basis().solve(x, rhs);
+            _solver.basis().solve(x, _solver.unitVector(c));
 
             x.setup();
             int size = x.size();
@@ -4853,13 +4853,13 @@ bool SoPlexBase<R>::getBasisInverseColReal(int c, R* coef, int* inds, int* ninds
                {
                   idx = _solver.number(_solver.basis().baseId(x.index(i)));
                   scaleExp = _scaler->getColScaleExp(idx);
-                  x.scaleValue(x.index(i), scaleExp);
+                  x.scaleValue(x.index(i), scaleExp + rhsScaleExp);
                }
                else
                {
                   idx = _solver.number(_solver.basis().baseId(x.index(i)));
                   scaleExp = - _scaler->getRowScaleExp(idx);
-                  x.scaleValue(x.index(i), scaleExp);
+                  x.scaleValue(x.index(i), scaleExp + rhsScaleExp);
                }
             }
          }
@@ -5063,7 +5063,7 @@ bool SoPlexBase<R>::getBasisInverseTimesVecReal(R* rhs, R* sol, bool unscale)
 
             for(int i = 0; i < v.dim(); ++i)
             {
-               if(isNotZero(v[i], this->tolerances()->epsilon()))
+               if(v[i] != 0)
                {
                   scaleExp = _scaler->getRowScaleExp(i);
                   v[i] = spxLdexp(v[i], scaleExp);
@@ -5072,9 +5072,10 @@ bool SoPlexBase<R>::getBasisInverseTimesVecReal(R* rhs, R* sol, bool unscale)
 
             _solver.basis().solve(x, v);
 
+            // entries that are tiny in the scaled space need not be tiny after unscaling: unscale every nonzero
             for(int i = 0; i < x.dim(); i++)
             {
-               if(isNotZero(x[i], this->tolerances()->epsilon()))
+               if(x[i] != 0)
                {
                   idx = _solver.number(_solver.basis().baseId(i));
 
